@@ -175,7 +175,7 @@ def encSnapshot (ver : Bytes) (d : Dataset) (t : Nat) : Bytes :=
 
 inductive Err where
   | eof                        -- `read_exact` of a fixed-size field hit the end of the file
-  | shortString (want : Nat)   -- `vec![0u8; want]` was allocated, then `read_exact` failed
+  | shortString (want avail : Nat)   -- `vec![0u8; want]` was allocated, then `read_exact` failed with `avail` bytes left
   | badLength                  -- first length byte `>> 6 == 3`
   | badMagic
   | badVersion
@@ -252,12 +252,14 @@ def readLen : Bytes → Res Nat
       | none => .err .eof []
     else .err .badLength []
 
-/-- `read_string`: the buffer is allocated from the length field before anything is read. -/
+/-- `read_string`: the buffer is allocated from the length field before anything is read.
+    A successful read lists its allocation in `allocs`; the failing one is carried by the error
+    (`want` bytes allocated with `avail` bytes left), see `allocTrace`. -/
 def readString (bs : Bytes) : Res Bytes :=
   (readLen bs).bind fun n r =>
     match readExact n r with
     | some (s, r') => .ok s r' [n]
-    | none => .err (.shortString n) [n]
+    | none => .err (.shortString n r.length) []
 
 def readStrings : Nat → Bytes → Res (List Bytes)
   | 0, bs => .ok [] bs []
@@ -552,8 +554,14 @@ def decSnapshot (fix : Fix) (bs : Bytes) (now : Nat) : Except Err Dataset :=
   | .ok s _ _ => .ok s
   | .err e _ => .error e
 
+/-- all allocations of a reader run: the successful ones, then the failing one if the run ended in it -/
+def Res.trace {α : Type} : Res α → List Nat
+  | .ok _ _ al => al
+  | .err (.shortString want _) al => al ++ [want]
+  | .err _ al => al
+
 /-- allocation trace of a load (buffer sizes taken from length fields, in order) -/
-def allocTrace (fix : Fix) (bs : Bytes) (now : Nat) : List Nat := (decSnapshotT fix bs now).allocs
+def allocTrace (fix : Fix) (bs : Bytes) (now : Nat) : List Nat := (decSnapshotT fix bs now).trace
 
 /-! ### Spec: what the property prescribes -/
 
